@@ -11,11 +11,9 @@
 package ibb // import "mellium.im/xmpp/ibb"
 
 import (
-	"bytes"
 	"context"
 	"encoding/base64"
 	"encoding/xml"
-	"errors"
 	"sync"
 
 	"mellium.im/xmlstream"
@@ -216,33 +214,33 @@ func handlePayload(h *Handler, errResp errorResponder, p dataPayload, e xmlstrea
 		}))
 		return err
 	}
-	conn.seq++
-
-	conn.readLock.Lock()
-	defer conn.readLock.Unlock()
-	var inputErr base64.CorruptInputError
-	dataLen := base64.StdEncoding.DecodedLen(len(p.Data))
-	// If this would cause the buffer to grow beyond the maximum size, send back
-	// an error.
-	if conn.maxBufSize > 0 && conn.readBuf.Len()+dataLen > conn.maxBufSize {
-		_, err := xmlstream.Copy(e, errResp.Error(stanza.Error{
-			Type:      stanza.Wait,
-			Condition: stanza.ResourceConstraint,
-		}))
-		return err
-	}
-	b64Reader := base64.NewDecoder(base64.StdEncoding, bytes.NewReader(p.Data))
-	_, err := conn.readBuf.ReadFrom(b64Reader)
-	if errors.As(err, &inputErr) {
+	// Decode the payload before touching any state of the stream: a packet that
+	// is refused must leave the stream exactly as it was.
+	data := make([]byte, base64.StdEncoding.DecodedLen(len(p.Data)))
+	n, err := base64.StdEncoding.Decode(data, p.Data)
+	if err != nil {
 		_, err := xmlstream.Copy(e, errResp.Error(stanza.Error{
 			Type:      stanza.Cancel,
 			Condition: stanza.BadRequest,
 		}))
 		return err
 	}
-	if err != nil {
+	data = data[:n]
+
+	conn.readLock.Lock()
+	defer conn.readLock.Unlock()
+	// If this would cause the buffer to grow beyond the maximum size, send back
+	// an error.
+	if conn.maxBufSize > 0 && conn.readBuf.Len()+len(data) > conn.maxBufSize {
+		_, err := xmlstream.Copy(e, errResp.Error(stanza.Error{
+			Type:      stanza.Wait,
+			Condition: stanza.ResourceConstraint,
+		}))
 		return err
 	}
+	conn.seq++
+	/* #nosec */
+	conn.readBuf.Write(data)
 
 	iq, ok := errResp.(stanza.IQ)
 	if e != nil && ok {
